@@ -53,6 +53,13 @@ pub fn generate(g: &mut Gen, thorough: bool) {
                 pts.push(q);
                 classes.push('e');
             }
+            // the same meridians written a turn further west or east: longitudes are angles
+            if name != "webmerc" && name != "merc" {
+                for (dl, turn) in [(2.0, -360.0), (-1.5, 360.0), (0.5, 720.0)] {
+                    pts.push([(d.centre.0 + dl + turn as f64).to_radians(), (d.centre.1 + 1.0).to_radians(), 0.0, 2000.0]);
+                    classes.push('i');
+                }
+            }
             // extreme but valid positions
             for (lon, lat) in [(179.999, 0.0), (-180.0, 45.0), (0.0, 89.999), (12.0, -89.999), (d.centre.0 + 90.0, 0.0), (d.centre.0 - 90.0, 10.0), (d.centre.0 + 180.0, -d.centre.1)] {
                 pts.push([(lon as f64).to_radians(), (lat as f64).to_radians(), 0.0, 2000.0]);
@@ -206,6 +213,26 @@ pub fn generate(g: &mut Gen, thorough: bool) {
         }
         for dir in ["F", "I"] {
             case(g, "plain", "deformation dt=1 grids=eur_nkg_nkgrf17vel.deformation", dir, "012", "3", &pts, &cl, "deformation-nonsquare-cells", false);
+        }
+        // the deflection operator (one way; latitude, longitude in degrees): it needs the geoid one metre north and
+        // east of the point as well, so at the outer edge of the margin (58.5 N, 16.5 E for test.geoid) it cannot serve
+        for def in ["deflection grids=test.geoid", "deflection grids=@missing.geoid,test.geoid"] {
+            let mut pts: Vec<[f64; 4]> = vec![];
+            let mut cl = String::new();
+            for (lat, lon, c) in [
+                (55.0, 12.0, 'i'), (57.3, 9.1, 'i'), (54.0, 8.0, 'i'), (58.0, 16.0, 'i'), (58.3, 12.0, 'i'), (56.0, 16.4, 'i'),
+                (58.5 - 4e-6, 12.0, 'o'), (56.0, 16.5 - 4e-6, 'o'), (58.5 - 2e-6, 16.5 - 2e-6, 'o'), (59.0, 12.0, 'o'), (56.0, 17.0, 'o'), (41.0, 2.0, 'o'),
+                (58.49, 12.0, 'i'), (53.51, 12.0, 'i'), (56.0, 7.51, 'i'),
+            ] {
+                pts.push([lat, lon, 10.0, 2000.0]);
+                cl.push(c);
+            }
+            for q in nan_variants(&mut g.rng, pts[0]) {
+                pts.push(q);
+                cl.push('e');
+            }
+            case(g, "plain", def, "F", "01", "23", &pts, &cl, "deflection-edges", false);
+            g.push(super::opg_line(&super::shipped_grids_of(def), def, "apply", "F", &data_of(&pts)), "model-deflection-edges", true);
         }
         // the deformation operator inside and outside its grids (test.deformation: 54-58 N, 8-16 E), with and without
         // the null grid: outside, a tuple is NaN and not counted, or passes unchanged and is counted
